@@ -289,3 +289,119 @@ def open_sequences(tier, seed):
 def _replay_opens(f):
     r = open_sequences('quick', 1)
     return not r['failures']
+
+
+# ---------------------------------------------------------------------------------------------------------------------
+# two peers accepted from ONE neighbor range (`neighbor 10.0.0.0/24 { ... }`): the real Listener.new_connections builds
+# their neighbors; what is decoded, stored and rendered for one must not depend on the other having connected
+RANGE_CONF = """
+neighbor 10.0.0.0/24 {
+    router-id 10.0.0.1;
+    local-address 10.9.9.9;
+    local-as 65500;
+    peer-as 65500;
+    passive true;
+    family { ipv4 unicast; }
+    static { route 203.0.113.0/24 next-hop 10.9.9.9; }
+}
+"""
+
+
+def _accept_from_range(count):
+    """-> (the range's own neighbor, [neighbor of each accepted peer]) through the real Listener.new_connections"""
+    import exabgp.reactor.listener as L
+    from exabgp.configuration.configuration import Configuration
+    from exabgp.rib import RIB
+
+    RIB._cache.clear()
+    conf = Configuration([RANGE_CONF], text=True)
+    if conf.reload() is not True:
+        raise RuntimeError('range configuration refused: %s' % conf.error)
+    (tmpl,) = conf.neighbors.values()
+    made = []
+
+    class StubPeer:
+        def __init__(self, neighbor, reactor):
+            self.neighbor = neighbor
+            made.append(neighbor)
+
+        def handle_connection(self, connection):
+            return None
+
+    class StubReactor:
+        def __init__(self):
+            self.p = {'range': tmpl}
+
+        def peers(self):
+            return list(self.p)
+
+        def neighbor(self, key):
+            return self.p[key]
+
+        def register_peer(self, name, peer):
+            self.p[name] = peer.neighbor
+
+        def handle_connection(self, key, connection):
+            return None
+
+    class Conn:  # what Incoming offers to new_connections(): .local is the address of the remote peer
+        def __init__(self, local, peer):
+            self.local, self.peer = local, peer
+
+        def name(self):
+            return 'incoming %s-%s' % (self.local, self.peer)
+
+    real_peer = L.Peer
+    L.Peer = StubPeer
+    try:
+        listener = L.Listener.__new__(L.Listener)
+        listener.serving = True
+        listener._reactor = StubReactor()
+        for i in range(count):
+            conn = Conn('10.0.0.%d' % (10 + i), '10.9.9.9')
+            listener._connected = lambda conn=conn: iter([conn])
+            for _ in listener.new_connections():
+                pass
+    finally:
+        L.Peer = real_peer
+    return tmpl, made
+
+
+def range_case():
+    from exabgp.bgp.message.update.nlri.inet import INET  # noqa: F401
+
+    inp = {'scenario': 'two peers (10.0.0.10, 10.0.0.11) accepted from `neighbor 10.0.0.0/24` holding one static route'}
+    try:
+        tmpl, (alone,) = _accept_from_range(1)
+        alone_addr = str(alone.session.peer_address)
+        tmpl, (p1, p2) = _accept_from_range(2)
+    except Exception as e:  # noqa
+        return {'what': f'accepting peers from a range raised {type(e).__name__}: {str(e)[:160]}', 'input': inp}
+    if str(p1.session.peer_address) != alone_addr:
+        return {'what': f'the address of the first peer reads {p1.session.peer_address} once a second peer of the range has connected ({alone_addr} while it is alone): its events name the other peer', 'input': inp}
+    if str(tmpl.session.peer_address) != '10.0.0.0':
+        return {'what': f'accepting a peer rewrote the address of the range itself: {tmpl.session.peer_address}', 'input': inp}
+    if p1.uid == p2.uid:
+        return {'what': 'two peers of one range share a uid: the counter of their JSON events is one counter', 'input': inp}
+    if p1.rib.incoming is p2.rib.incoming:
+        return {'what': 'two peers of one range share ONE Adj-RIB-In: what one announces is stored for both, the withdraw of one removes the route of the other', 'input': inp}
+    if p1.rib.outgoing is p2.rib.outgoing:
+        return {'what': 'two peers of one range share ONE Adj-RIB-Out: the first peer to run sends the table, the other an End-of-RIB on an empty one', 'input': inp}
+    for who, nb in (('first', p1), ('second', p2)):
+        sent = []
+        for upd in nb.rib.outgoing.updates(True):
+            sent += [str(r.nlri) for r in getattr(upd, 'announces', [])] if hasattr(upd, 'announces') else []
+        if not any('203.0.113.0/24' in s for s in sent):
+            return {'what': f'the {who} peer of the range has no configured route to send (its Adj-RIB-Out yields {sent})', 'input': inp}
+    return None
+
+
+@bounded('C19', 'peers-of-one-range')
+def peers_of_one_range(tier, seed):
+    f = range_case()
+    return {'evaluations': 1, 'distinct_nontrivial': 1, 'bound': 'one history: two incoming connections matched by one range neighbor through the real Listener.new_connections (stub Peer, no socket); addresses, uid, Adj-RIB-In, Adj-RIB-Out of the two neighbors and of the range', 'rule': 'one case', 'samples': [{'scenario': 'two peers of 10.0.0.0/24'}], 'failures': [f] if f else []}
+
+
+@replayer('C19', 'peers-of-one-range')
+def _replay_range(f):
+    return range_case() is None
